@@ -417,7 +417,7 @@ func diffSnap(a, b []string) string {
 	return strings.Join(d, "; ")
 }
 
-var objects = []string{"proper-0700-dir", "nothing", "regular-file", "symlink-to-dir", "dir-0755", "dir-0777", "dir-with-subdir", "dir-0700-then-replaced-by-symlink"}
+var objects = []string{"proper-0700-dir", "nothing", "regular-file", "symlink-to-dir", "dir-0755", "dir-0777", "dir-with-subdir", "dir-0700-then-replaced-by-symlink", "dir-0700-owned-by-unmapped-uid"}
 
 func runServer(s *kernel.Sim, c *scen.Case, p params) {
 	t := s.T
@@ -428,6 +428,7 @@ func runServer(s *kernel.Sim, c *scen.Case, p params) {
 	var sn *security.SecurityNegotiation
 	var serr error
 	given := ""
+	chownFailed := false
 	target := filepath.Join(sandboxParent, fmt.Sprintf("c18t_%d_%d", os.Getpid(), c.Seed%100000))
 	_ = os.RemoveAll(target)
 	_ = os.Mkdir(target, 0o700)
@@ -469,6 +470,13 @@ func runServer(s *kernel.Sim, c *scen.Case, p params) {
 					_ = os.Mkdir(path, 0o700)
 					_ = os.Remove(path)
 					_ = os.Symlink(target, path)
+				case "dir-0700-owned-by-unmapped-uid":
+					// a perfectly shaped directory whose owner has no account name (container or
+					// NFS uid, deleted account); needs root for the chown
+					_ = os.Mkdir(path, 0o700)
+					if err := os.Chown(path, 54321, 54321); err != nil {
+						chownFailed = true
+					}
 				}
 				r := message.NewMessageForStream(st)
 				_ = r.PutInt(cctx, 0)
@@ -501,7 +509,21 @@ func runServer(s *kernel.Sim, c *scen.Case, p params) {
 		s.Probe("server-sent-no-path")
 		return
 	}
-	if p.Object == "proper-0700-dir" {
+	if p.Object == "dir-0700-owned-by-unmapped-uid" {
+		if chownFailed {
+			s.Probe("unmapped-uid-object-needs-root")
+		} else if serr == nil {
+			// accepted: then the recorded identity has to be the directory's owner, not somebody else
+			me, _ := user.Current()
+			if sn.User == me.Username || sn.User == "" {
+				s.Violate("identity-not-directory-owner", p.Object, fmt.Sprintf("%s: the directory belongs to uid 54321, which has no account; the server accepted it and recorded %q", desc, sn.User))
+				return
+			}
+			s.Probe("unmapped-owner-accepted-under-its-own-identity")
+		} else {
+			s.Probe("improper-object-refused")
+		}
+	} else if p.Object == "proper-0700-dir" {
 		if serr != nil {
 			s.Violate("proper-directory-refused", p.Object, desc)
 			return
